@@ -11,6 +11,7 @@ import (
 	"testing"
 
 	"github.com/remieven/ysgo"
+	"github.com/remieven/ysgo/variable"
 	"pgregory.net/rapid"
 )
 
@@ -285,11 +286,64 @@ func runC07(c c07Case) Verdict {
 			return failf("after a failed RestoreAt the runner does not go on like an untouched twin: %s%s", d, ctx())
 		}
 	}
+	// (f) maps that are nil instead of empty (hand-built snapshots, saves decoded from "null") mean the same as empty ones
+	for _, which := range []string{"visits", "variables"} {
+		withNil := &ysgo.Snapshot{CurrentNode: snap.CurrentNode, Variables: copyVariables(snap.Variables), VisitedNodes: copyVisits(snap.VisitedNodes)}
+		withEmpty := &ysgo.Snapshot{CurrentNode: snap.CurrentNode, Variables: copyVariables(snap.Variables), VisitedNodes: copyVisits(snap.VisitedNodes)}
+		if which == "visits" {
+			withNil.VisitedNodes, withEmpty.VisitedNodes = nil, map[string]int{}
+		} else {
+			withNil.Variables, withEmpty.Variables = nil, map[string]variable.Value{}
+		}
+		rn, _ := prepare()
+		re, _ := prepare()
+		var errN, errE error
+		var panicked any
+		func() {
+			defer func() { panicked = recover() }()
+			errN, errE = rn.dr.RestoreAt(withNil), re.dr.RestoreAt(withEmpty)
+		}()
+		if panicked != nil {
+			return failf("RestoreAt panicked for a snapshot whose %s map is nil: %v%s", which, panicked, ctx())
+		}
+		if (errN == nil) != (errE == nil) {
+			return failf("RestoreAt of a snapshot whose %s map is nil: %v; with an empty map instead: %v%s", which, errN, errE, ctx())
+		}
+		if errN != nil {
+			continue
+		}
+		ncn, nce := 0, 0
+		driveN(rn, 10, c.Cont, &ncn)
+		driveN(re, 10, c.Cont, &nce)
+		if d := diffTraces(re.trace, rn.trace); d != "" {
+			return failf("a snapshot whose %s map is nil does not restore like one whose map is empty (empty vs nil): %s\nwith the empty map:\n%swith nil:\n%s%s", which, d, showTrace(re.trace), showTrace(rn.trace), ctx())
+		}
+		if d := viewSnapshot(re.dr.Snapshot()).diff(viewSnapshot(rn.dr.Snapshot())); d != "" {
+			return failf("after restoring a snapshot whose %s map is nil and going on, the state differs from the same with an empty map (empty vs nil): %s%s", which, d, ctx())
+		}
+	}
 	cls := []string{"receiver=" + state, fmt.Sprintf("entries-before-snapshot=%d", min(len(entries), 4))}
 	if jumpsAfter > 0 {
 		cls = append(cls, "original-jumped-after-snapshot")
 	}
 	return Verdict{NonTrivial: len(entries) >= 2 && state != "fresh", Classes: cls}
+}
+
+func copyVariables(in map[string]variable.Value) map[string]variable.Value {
+	out := make(map[string]variable.Value, len(in))
+	for k, v := range in {
+		cp := fromMval(toMval(&v))
+		out[k] = *cp
+	}
+	return out
+}
+
+func copyVisits(in map[string]int) map[string]int {
+	out := make(map[string]int, len(in))
+	for k, v := range in {
+		out[k] = v
+	}
+	return out
 }
 
 // prepareKeepState drives a fresh runner into the receiver state and keeps its trace bookkeeping (for the twin comparison).
@@ -312,7 +366,17 @@ func prepareKeepState(c c07Case, newH func() *host, nc *int) *host {
 
 var snapScriptOpts = scriptOpts{maxNodes: 4, maxDepth: 3, maxBody: 4, tracking: true, visitText: true, enterProbe: true, endWithJump: 3, firstLine: true, shadow: true,
 	extraStmt: func(g *scriptGen, depth int) *Stmt {
-		switch rapid.IntRange(0, 5).Draw(g.t, "snapstmt") {
+		switch rapid.IntRange(0, 7).Draw(g.t, "snapstmt") {
+		case 6, 7:
+			// zero with the other sign: equal under ==, shown alike, but a different value (1/$k1 tells them apart); a restore
+			// that skips "unchanged" variables must not take one for the other
+			v := rapid.SampledFrom([]string{"k1", "k2"}).Draw(g.t, "v")
+			return rapid.SampledFrom([]*Stmt{
+				{K: "set", Var: v, Op: "=", E: bin("*", varRef(v), neg(num("1")))},
+				{K: "set", Var: v, Op: "=", E: bin("*", num("0"), neg(num("1")))},
+				{K: "set", Var: v, Op: "=", E: num("0")},
+				{K: "line", Text: []TextPart{{S: "inverse of " + v + " "}, {E: bin("/", num("1"), varRef(v))}}},
+			}).Draw(g.t, "zero")
 		case 5:
 			// a jump that fails: the checkpoint must stay the one of the node entry
 			return rapid.SampledFrom([]*Stmt{{K: "jump", Target: "Nowhere"}, {K: "jumpx", E: str("No Such Node")}, {K: "jumpx", E: num("3")}}).Draw(g.t, "badjump")
